@@ -527,7 +527,7 @@ impl<V: Val> MapB for EmptyMap<u8, V> {
         format!("EmptyMap<u8,{}>", V::tname())
     }
     fn all(_p: P) -> Vec<Self> {
-        vec![EmptyMap::default()]
+        vec![EmptyMap(std::marker::PhantomData, std::marker::PhantomData)]
     }
     fn entries(&self) -> Vec<(u8, &V)> {
         vec![]
@@ -709,7 +709,7 @@ impl Prov for Prov255 {
 }
 /// A `Point<u8, Pr>` lattice has exactly one element ("domain of size one"): the universe is that
 /// element. Merges of unequal points (which must panic) are exercised separately (`PointPanics`).
-impl<Pr: Prov> Val for Point<u8, Pr> {
+impl<Pr: Prov + Clone> Val for Point<u8, Pr> {
     const TOP_IN_U: bool = true;
     fn tname() -> String {
         format!("Point<u8,#{}>", Pr::V)
